@@ -7,6 +7,8 @@ From RV Require Import Model.Base Model.RenderPrims Gen.Consts Gen.LeafFit Gen.L
 From RV Require Import Proofs.Render.
 From RV Require Import Gen.LeafMorph Model.Morph Proofs.Morph.
 From RV Require Import Gen.LeafTurb Model.Turb Proofs.Turb.
+From Coq Require Import String.
+From RV Require Import Gen.C02Sites Gen.LeafLoops Model.C02Surf Proofs.C02Surf Proofs.C02Ledger.
 Local Open Scope Z_scope.
 
 (* geom::fit_to_rect is the intersection *)
@@ -93,6 +95,99 @@ Theorem C02_turbulence_wrap_in_range : forall b w, i32P b -> i32P w -> Forall i3
 Proof. exact turb_wrap_ok. Qed.
 Print Assumptions C02_turbulence_wrap_in_range.
 
+(* ================================================================== extension round 4 *)
+(* clip buffers (clip.rs apply / clip_group), mask buffers (mask.rs: pixmap + alpha mask) and the buffer of a nested SVG image
+   (image.rs render_vector) are allocated with the size of the surface the function was handed - the size arguments are
+   SOURCE-DERIVED (Gen/C02Sites.v surface_buffers), render_group hands them its own layer - so along ANY chain of nested
+   clips / masks every buffer has exactly the layer's size: at most k x k canvases, whatever the document says *)
+Theorem C02_clip_mask_buffers : forall b nf W H m r fs,
+  1 <= W <= CANVAS_MAX -> 1 <= H <= CANVAS_MAX -> max_bbox W H = Some m -> layer_box b nf m = LBox r ->
+  Forall (fun f => In f (map snd surface_buffers)) fs ->
+  surface_calls_ok = true /\ surface_buffers <> [] /\
+  nest fs (layer_size r) = (iw r, ih r) /\
+  fst (nest fs (layer_size r)) * snd (nest fs (layer_size r)) <= (MAXBB_MUL_W * MAXBB_MUL_H) * (W * H).
+Proof. exact clip_mask_buffers. Qed.
+Print Assumptions C02_clip_mask_buffers.
+
+(* the clause FAILS for pattern tiles: path::render_pattern_pixmap allocates exactly the number written in the document,
+   for every n up to u32::MAX, on any canvas (class pattern-tile-unbounded, F5) *)
+Theorem C02_pattern_tile_follows_document : forall n, 1 <= n <= U32_MAX ->
+  pattern_tile_size (mk_qrect 0 0 (n # 1) (n # 1)) 1 1 = (n, n).
+Proof. exact pattern_tile_follows_document. Qed.
+Print Assumptions C02_pattern_tile_follows_document.
+
+(* ... and for filter results: every Pixmap::try_create of filter/mod.rs is sized by the filter region or by an existing
+   image (closed vocabulary, source-derived); the region is the document's rectangle, not clamped (class filter-image-unbounded, F4) *)
+Theorem C02_filter_results_sized_by_region :
+  Forall (fun a => a = "region"%string \/ a = "input"%string) filter_alloc_args.
+Proof. exact filter_alloc_vocab. Qed.
+Print Assumptions C02_filter_results_sized_by_region.
+
+(* every buffer-creating expression of crates/resvg/src is classified: layer / surface-sized / copy of an existing image /
+   constant / per-document-item, or a registered class that follows the document; no stale entries *)
+Theorem C02_alloc_sites_classified :
+  (forall s, In s alloc_sites -> exists c, In (s, c) alloc_ledger /\ aclass_ok c = true) /\
+  (forall e, In e alloc_ledger -> In (fst e) alloc_sites) /\ alloc_sites <> [].
+Proof. exact alloc_sites_classified. Qed.
+Print Assumptions C02_alloc_sites_classified.
+
+(* every unwrap / expect / assert / debug_assert / unreachable / panic of crates/resvg/src has a ledger entry (proved,
+   computed, reviewed or registered class) and the number of index expressions per function is the reviewed one *)
+Theorem C02_sites_discharged :
+  (forall s, In s panic_sites -> exists c, In (s, c) panic_ledger /\ pclass_ok c = true) /\
+  (forall s, In s index_counts -> exists why, In (s, why) index_ledger) /\ panic_sites <> [].
+Proof. exact sites_discharged. Qed.
+Print Assumptions C02_sites_discharged.
+
+(* filter::apply_inner / apply_tile move a primitive subregion into the filter region's frame with translate_checked (SOURCE-DERIVED
+   by rs2coq; repaired in b25a51c, formerly IntRect::translate(-region.x(), -region.y()).unwrap(): guarded + _refuted).  FULL strength,
+   for ALL regions and subregions: no unwrap, the i64 arithmetic stays in range, the result is None (-> Error::InvalidRegion) or a valid
+   IntRect (fits i32) that is the subregion moved by the region's origin; a subregion inside the region always has a result, inside 0..w x 0..h *)
+Theorem C02_subregion_clip_total : forall region sub,
+  valid_irect region -> valid_irect sub ->
+  subregion2_unwraps = false /\
+  forallb in_i64 (translate_checked_i64_steps sub region) = true /\
+  (forall q, subregion2 region sub = Some q ->
+     valid_irect q /\ ix q = ix sub - ix region /\ iy q = iy sub - iy region /\ iw q = iw sub /\ ih q = ih sub) /\
+  (subregion2 region sub = None -> ~ (inside sub region)) /\
+  (inside sub region -> exists q, subregion2 region sub = Some q /\ 0 <= ix q /\ 0 <= iy q /\
+                                  ix q + iw q <= iw region /\ iy q + ih q <= ih region).
+Proof. exact subregion2_total. Qed.
+Print Assumptions C02_subregion_clip_total.
+
+(* box blur (box_blur_vert / box_blur_horz, loop ranges SOURCE-DERIVED): for every radius >= 1 (radius 0 returns early) and
+   every line length n >= 1 the three output loops write the line exactly once (n writes: the running index stays inside
+   the line), the four loops together run at most 2n times - independent of the radius, hence of stdDeviation - and none
+   of the usize subtractions in the ranges underflows where it is evaluated *)
+Theorem C02_box_blur_line_covered : forall r n, 1 <= r -> 1 <= n ->
+  bb_writes r n = n /\ bb_trips r n <= 2 * n /\
+  0 <= bb_pre_hi r n <= n /\
+  (bb_skip r n = false -> 0 <= bb_mid_hi r n /\ 0 <= bb_tail_hi r n /\ 0 <= n - r - 1).
+Proof. exact bb_line. Qed.
+Print Assumptions C02_box_blur_line_covered.
+
+(* feConvolveMatrix edgeMode=wrap: `while t < 0 { t += dim }  t %= dim` ends after at most `target` rounds and yields a
+   coordinate inside the image, for every image position, kernel cell and target *)
+Theorem C02_convolve_wrap_terminates : forall p target o dim,
+  1 <= dim -> 0 <= p < dim -> 0 <= target -> 0 <= o ->
+  exists v n, conv_wrap (Z.to_nat target) p target o dim = Some (v, n) /\ 0 <= v < dim /\ 0 <= n <= target.
+Proof. exact conv_wrap_ok. Qed.
+Print Assumptions C02_convolve_wrap_terminates.
+
+(* IIR blur: the upward `while y > 0 { ..; y -= width }` starts at buf.len() - width >= 0 and reaches exactly 0 after
+   h - 1 rounds (no usize underflow), the downward loop ends within h rounds; `steps` is the constant 4 *)
+Theorem C02_iir_loops : forall w h, 1 <= w -> 1 <= h ->
+  iir_up (Z.to_nat (h - 1)) w h = Some (0, h - 1) /\ 0 <= iir_up_start (iir_buf_len w h) w /\
+  (exists v n, iir_down (Z.to_nat h) w h = Some (v, n)) /\ iir_steps = 4.
+Proof. exact iir_loops. Qed.
+Print Assumptions C02_iir_loops.
+
+(* the clause FAILS for feTurbulence: the per-pixel octave loop runs exactly numOctaves times, for every value usvg can
+   produce (class turbulence-octaves) *)
+Theorem C02_turbulence_octaves_follow_document : forall n, 0 <= n <= U32_MAX -> turb_octave_trips n = n.
+Proof. exact turb_octaves_follow_document. Qed.
+Print Assumptions C02_turbulence_octaves_follow_document.
+
 (* ------------------------------------------------------------------ non-vacuity *)
 (* a translucent group half outside a 100x100 canvas gets a layer *)
 Example C02_nv_half_outside :
@@ -113,3 +208,22 @@ Proof. split; vm_compute; reflexivity. Qed.
 Example C02_nv_fit_none :
   fit_to_rect (mk_irect 600 0 10 10) (mk_irect (-200) (-200) 500 500) = None.
 Proof. vm_compute. reflexivity. Qed.
+(* extension round 4 *)
+Example C02_nv_nested_clip_of_mask :
+  nest [buf_mask_pixmap_0; buf_clip_pixmap_0; buf_clip_pixmap_1] (layer_size (mk_irect 58 (-32) 85 75)) = (85, 75).
+Proof. vm_compute. reflexivity. Qed.
+Example C02_nv_pattern_tile_100000 :   (* <pattern width=100000 height=100000> on a 100x100 canvas: 1e10 pixels against 25e4 *)
+  pattern_tile_size (mk_qrect 0 0 (100000 # 1) (100000 # 1)) 1 1 = (100000, 100000).
+Proof. vm_compute. reflexivity. Qed.
+Example C02_nv_subregion_inside :
+  subregion2 (mk_irect (-10) 5 200 100) (mk_irect 20 30 50 40) = Some (mk_irect 30 25 50 40).
+Proof. vm_compute. reflexivity. Qed.
+Example C02_nv_subregion_far_none :   (* the former witness of filter-subregion-overflow: now an invalid region, not a panic *)
+  subregion2 (mk_irect (-1999999800) 200 2100000000 100) (mk_irect 200000200 200 10 10) = None.
+Proof. exact subregion2_far_none. Qed.
+Example C02_nv_box_blur_short_line : bb_writes 7 3 = 3 /\ bb_trips 7 3 = 6 /\ bb_writes 2 40 = 40 /\ bb_skip 7 3 = true.
+Proof. vm_compute. auto. Qed.
+Example C02_nv_conv_wrap : conv_wrap 8 0 8 0 3 = Some (1, 3).   (* -8 -> -5 -> -2 -> 1 *)
+Proof. vm_compute. reflexivity. Qed.
+Example C02_nv_iir : iir_up 4 7 5 = Some (0, 4) /\ iir_down 5 7 5 = Some (35, 4).
+Proof. vm_compute. auto. Qed.
